@@ -159,3 +159,41 @@ func HarnessC14StrictWithUnready() {
 	}
 	vreach("end")
 }
+
+// HarnessC14TwoPolicies: two policies of one cluster with explicit, disjoint subsets (same length, same readiness
+// pattern) carry traffic in an arbitrary interleaving: each policy's own picks are still strict round-robin over its own
+// ready endpoints (a cursor shared between the policies would let one policy's traffic steal the other's turns).
+// verif:bounds 4 ready endpoints, policies {a,b} and {c,d}; N = 2..5 (quick) / 6 (thorough) picks, each by an arbitrarily chosen policy; cursors created fresh
+func HarnessC14TwoPolicies() {
+	c, eps := c14Cluster(4)
+	p := [2]*endpointPickStrategy{
+		{cluster: c, upstreams: c14Names[0:2]},
+		{cluster: c, upstreams: c14Names[2:4]},
+	}
+	n := nondetRange("N", 2, vbound(5, 6))
+	var counts [4]int
+	var per [2]int
+	for i := 0; i < n; i++ {
+		which := nondetRange("policy", 0, 1, i)
+		ep, err := p[which].Pop()
+		if err != nil || ep == nil {
+			vfail("C14/pop-fails-with-ready-endpoints")
+			return
+		}
+		per[which]++
+		inSubset := false
+		for j := range eps {
+			if eps[j] == ep {
+				counts[j]++
+				inSubset = j/2 == which
+			}
+		}
+		vassert(inSubset, "C14/pick-outside-the-policy-subset")
+	}
+	for j := 0; j < 4; j++ {
+		m := per[j/2]
+		vassert(counts[j] >= m/2, "C14/strict-endpoint-starved")
+		vassert(counts[j] <= (m+1)/2, "C14/strict-endpoint-favoured")
+	}
+	vreach("end")
+}
